@@ -86,7 +86,7 @@ func pureExec(line string) string {
 			return "ok " + nftLine(n)
 		case "fmtnft":
 			n := ctypes.Nft{ChainId: S(f[1]), ContractAddr: ctypes.NormalizeHexAddress(S(f[2])), TokenId: ctypes.NormalizeHexAddress(S(f[3]))}
-			return "ok " + world.EncStr(strings.ToLower(n.FormatString()))
+			return "ok " + world.EncStr(world.CanonSource(n.FormatString()))
 		case "parseentry":
 			n, o, err := otypes.StringToOwnershipData(S(f[1]))
 			if err != nil {
